@@ -28,14 +28,51 @@ Definition out_eqb (a b : out) : bool :=
 Definition frame_of_out (o : out) : option frame :=
   match o with RFrame a off len cap pre => Some (mkF false a off len cap pre) | _ => None end.
 
+(* ---- sort.Sort(frame): the view's rows must become a key-sorted permutation of
+        themselves and nothing outside the view may change; the order among rows
+        with equal keys is not fixed, so the next state is the observed one ---- *)
+Fixpoint lex_leb (a b : list Z) : bool :=
+  match a, b with
+  | [], _ => true
+  | _, [] => false
+  | x :: a', y :: b' => if Z.ltb x y then true else if Z.ltb y x then false else lex_leb a' b'
+  end.
+Fixpoint insert_row (r : list Z) (l : list (list Z)) : list (list Z) :=
+  match l with [] => [r] | x :: l' => if lex_leb r x then r :: l else x :: insert_row r l' end.
+Definition sort_rows (l : list (list Z)) : list (list Z) := fold_right insert_row [] l.
+Definition rows_of (h : heap) (f : frame) : list (list Z) := map (row h f) (seq 0 (flen f)).
+Fixpoint keys_sorted (pre : nat) (l : list (list Z)) : bool :=
+  match l with
+  | a :: ((b :: _) as rest) => lex_leb (firstn (S pre) a) (firstn (S pre) b) && keys_sorted pre rest
+  | _ => true
+  end.
+(* every cell outside the view [f] is unchanged *)
+Definition outside_same (h h' : heap) (f : frame) : bool :=
+  list_eqb (fun a a' => true) h h' &&
+  forallb (fun ai =>
+    let a := nth ai h [] in let a' := nth ai h' [] in
+    if Nat.eqb ai (fa f)
+    then list_eqb (fun c c' => col_eqb (firstn (foff f) c) (firstn (foff f) c')
+                               && col_eqb (skipn (foff f + flen f) c) (skipn (foff f + flen f) c')) a a'
+    else alloc_eqb a a') (seq 0 (length h)).
+Definition sort_ok (pre : state) (fi : nat) (post : heap) : bool :=
+  let f := getf pre fi in
+  keys_sorted (fpre f) (rows_of post f)
+  && list_eqb col_eqb (sort_rows (rows_of post f)) (sort_rows (rows_of (sheap pre) f))
+  && outside_same (sheap pre) post f.
+
 (* ---- exact agreement: the model run from [init] predicts every output and
         every cell of every allocation after every step ---- *)
 Fixpoint run_exact (s : state) (c : case) : bool :=
   match c with
   | [] => true
   | ob :: rest =>
-      let '(s', o') := step s (oop ob) in
-      out_eqb o' (oout ob) && heap_eqb (sheap s') (oheap ob) && run_exact s' rest
+      match oop ob with
+      | OSort fi => out_eqb RUnit (oout ob) && sort_ok s fi (oheap ob) && run_exact (mkS (oheap ob) (spool s)) rest
+      | _ =>
+        let '(s', o') := step s (oop ob) in
+        out_eqb o' (oout ob) && heap_eqb (sheap s') (oheap ob) && run_exact s' rest
+      end
   end.
 
 (* ---- property-level judgement of one observed step, from the OBSERVED
@@ -51,6 +88,7 @@ Definition out_sem_eqb (fresh : bool) (a b : out) : bool :=
   end.
 
 Definition step_ok (pre : state) (ob : obs) : bool :=
+  match oop ob with OSort fi => out_eqb RUnit (oout ob) && sort_ok pre fi (oheap ob) | _ =>
   let '(s', o') := step pre (oop ob) in
   let n := length (sheap pre) in
   let fresh := negb (Nat.eqb (length (sheap s')) n) in
@@ -60,7 +98,8 @@ Definition step_ok (pre : state) (ob : obs) : bool :=
      | Some fm, Some fo => list_eqb col_eqb (view (sheap s') fm) (view (oheap ob) fo)
      | None, None => true
      | _, _ => false
-     end.
+     end
+  end.
 
 (* the observed state after a step: observed heap, pool extended by the observed frame *)
 Definition obs_next (pre : state) (ob : obs) : state :=
